@@ -99,15 +99,15 @@ Definition id_of (name : string) : Z :=
 (** _recv_cb_handle with the payload-size assertions of the _recv_cb_* *)
 Definition recv_cb_handle (fid : Z) (p : bytes) : dispatch :=
   if fid =? id_of "CMNINFO" then
-    if (zlen p =? 0) then DCall RCmninfo p else DAssert
+    if (zlen p =? Gen_frame.cb_cmninfo_len) then DCall RCmninfo p else DAssert
   else if fid =? id_of "CHINFO" then
-    if (zlen p =? 1) then DCall RChinfo p else DAssert
+    if (zlen p =? Gen_frame.cb_chinfo_len) then DCall RChinfo p else DAssert
   else if fid =? id_of "START" then
-    if (zlen p =? 1) then DCall RStart p else DAssert
+    if (zlen p =? Gen_frame.cb_start_len) then DCall RStart p else DAssert
   else if fid =? id_of "ENABLE" then
-    if negb (zlen p =? 0) then DCall REnable p else DAssert
+    if negb (zlen p =? Gen_frame.cb_enable_nlen) then DCall REnable p else DAssert
   else if fid =? id_of "DIV" then
-    if negb (zlen p =? 0) then DCall RDiv p else DAssert
+    if negb (zlen p =? Gen_frame.cb_div_nlen) then DCall RDiv p else DAssert
   else DAssert.
 
 Definition recv_dispatch (d : bytes) : dispatch :=
